@@ -18,6 +18,7 @@
 package ucfg
 
 import (
+	"math"
 	"reflect"
 	"regexp"
 	"time"
@@ -774,6 +775,9 @@ func doReifyPrimitive(
 	return reflect.Value{}, raiseToTypeNotSupported(opts.opts, val, baseType)
 }
 
+// maxDurationSeconds is the largest number of whole seconds a time.Duration can hold.
+const maxDurationSeconds = math.MaxInt64 / int64(time.Second)
+
 func reifyDuration(
 	opts fieldOptions,
 	val value,
@@ -784,11 +788,21 @@ func reifyDuration(
 
 	switch v := val.(type) {
 	case *cfgInt:
+		if v.i > maxDurationSeconds || v.i < -maxDurationSeconds {
+			return reflect.Value{}, raiseConversion(opts.opts, val, ErrOverflow, "duration")
+		}
 		d = time.Duration(v.i) * time.Second
 	case *cfgUint:
+		if v.u > uint64(maxDurationSeconds) {
+			return reflect.Value{}, raiseConversion(opts.opts, val, ErrOverflow, "duration")
+		}
 		d = time.Duration(v.u) * time.Second
 	case *cfgFloat:
-		d = time.Duration(v.f * float64(time.Second))
+		ns := v.f * float64(time.Second)
+		if math.IsNaN(ns) || ns < math.MinInt64 || ns >= math.MaxInt64 {
+			return reflect.Value{}, raiseConversion(opts.opts, val, ErrOverflow, "duration")
+		}
+		d = time.Duration(ns)
 	case *cfgString:
 		d, err = time.ParseDuration(v.s)
 	default:
